@@ -8,7 +8,7 @@ META = {
               "2 boards x 2 trains with arbitrary connected/class bits",
     "stubs": ["all callees of start/stop -> recording stubs (event log)", "pthread_create/join -> handle monitor, threads not run"],
     "outside": ["what the threads do while running (C10/C12/C01)", "bidib_start_serial (device I/O)",
-                "memory release itself: bidib_state_free (C13/C17), node table and queue frees (C03/C06 harnesses)",
+                "release of the configuration state: bidib_state_free (C13/C17)",
                 "packet capacity surviving a stop is recorded as an observation (static of send.c, not reachable from this unit)"],
     "assumes": [],
 }
@@ -22,4 +22,9 @@ def queries():
     qs.append(Q("zero-speed", "C16_life.c", ["src/state/bidib_state.c", "src/state/bidib_state_getter.c"],
                 defs={"MODE": 1, "VERIF_GARRAY_CAP": 5}, unwind=5,
                 unwindset=["strcmp.0:4", "strlen.0:4", "sb_str.0:4", "g_string_new.0:4", "sb_train.0:10"]))
+    for nheld in (1, 2):
+        qs.append(Q("release-pending-%d" % nheld, "C16_life.c", ["src/transmission/bidib_transmission_responses.c",
+                    "src/transmission/bidib_transmission_util.c", "src/transmission/bidib_transmission_message_string_mapping.c"],
+                    defs={"MODE": 2, "NHELD": nheld, "VERIF_QCAP": 5, "VERIF_HCAP": 3, "VERIF_KEY4": None}, unwind=8, leak=True,
+                    unwindset=["memcpy.0:6", "strcmp.0:5"], tier="quick" if nheld == 2 else "thorough"))
     return qs
